@@ -232,7 +232,7 @@ pub fn gen(tier: Tier, rng: &mut Rng64, out: &mut Out) {
         run("C02.prog", &[s("4"), fmt_bdd(&bdd_of_tt(4, &tt)), s("varrestrict:0:3:1;varrestrict:0:3:0;restrict:0:3=1;and:0:1;iff:0:1")], out);
     }
     // --- random histories
-    let programs = if thorough { 60000 } else { 1500 };
+    let programs = if thorough { 120000 } else { 5000 };
     for _ in 0..programs {
         let n = match rng.below(10) { 0 => 0, 1 => 1, 2 => 2, 3 | 4 => 3, 5 | 6 => 4, 7 => 5, 8 => 6, _ => 7 } as usize;
         let inits = 2 + rng.below(3) as usize;
